@@ -43,7 +43,7 @@ fn('dsplib::FIRDecimator::process', TU_DEC, serves=['C08', 'C06', 'C05'], extra_
             ('count', 'result.len == tdiv(nx, M)'),
             ('history', 'forall(lambda t: Implies(And(0 <= t, t < nd), d_[t] == X[nx + t]))'),
             ('polyphase_sum', 'forall(lambda q: Implies(And(0 <= q, q < result.len), result[q] == BRSUM(X, q*M, M, bank(h_), S, M)))')],
-   prop_of={'history': ['C06'], 'polyphase_sum': ['C08', 'C06'], 'count': ['C08'], 'throws': ['C08', 'C05']},
+   prop_of={'history': ['C06', 'C08'], 'polyphase_sum': ['C08', 'C06'], 'count': ['C08'], 'throws': ['C08', 'C05']},
    loops={
        1: {'inv': [('x', 'And(x.len == nd + nx, forall(lambda t: Implies(And(0 <= t, t < nd + nx), x[t] == X[t])))'),
                    ('px', 'px.off == i * M'), ('ylen', 'y.len == tdiv(nx, M)'),
@@ -72,7 +72,7 @@ fn('dsplib::FIRInterpolator::process', TU_INT, serves=['C08', 'C06', 'C05'], ext
             ('count', 'result.len == nx * L'),
             ('history', 'forall(lambda t: Implies(And(0 <= t, t < nd), d_[t] == X[nx + t]))'),
             ('polyphase_sum', 'forall(lambda q, b: Implies(And(0 <= q, q < nx, 0 <= b, b < L), result[q*L + b] == DOT(X, q, 1, bank(h_)[b], S)))')],
-   prop_of={'history': ['C06'], 'polyphase_sum': ['C08', 'C06'], 'count': ['C08'], 'throws': ['C08', 'C05']},
+   prop_of={'history': ['C06', 'C08'], 'polyphase_sum': ['C08', 'C06'], 'count': ['C08'], 'throws': ['C08', 'C05']},
    loops={
        1: {'inv': [('x', 'And(px.len == nd + nx, forall(lambda t: Implies(And(0 <= t, t < nd + nx), px[t] == X[t])))'),
                    ('py', 'py.off == i * L'), ('ylen', 'y.len == nx * L'),
@@ -103,7 +103,7 @@ fn('dsplib::FIRRateConverter::process', TU_RC, serves=['C08', 'C06', 'C05'], ext
             ('count', 'result.len == NP * L'),
             ('history', 'forall(lambda t: Implies(And(0 <= t, t < nd), d_[t] == X[nx + t]))'),
             ('polyphase_sum', 'forall(lambda q, b: Implies(And(0 <= q, q < NP, 0 <= b, b < L), result[q*L + b] == DOT(X, q*M + xidxs_[b], 1, bank(h_)[b], S)))')],
-   prop_of={'history': ['C06'], 'polyphase_sum': ['C08', 'C06'], 'count': ['C08'], 'throws': ['C08', 'C05']},
+   prop_of={'history': ['C06', 'C08'], 'polyphase_sum': ['C08', 'C06'], 'count': ['C08'], 'throws': ['C08', 'C05']},
    loops={
        1: {'inv': [('x', 'And(x.len == nd + nx, forall(lambda t: Implies(And(0 <= t, t < nd + nx), x[t] == X[t])))'),
                    ('py', 'py.off == i * L'), ('ylen', 'y.len == NP * L'),
